@@ -125,8 +125,11 @@ def run(rep, tier, rng):
         for j in range(nmut):
             m = b
             for _ in range(1 + rr.below(3)):
-                m = gen_serde.mutate(m, rr)
+                m = gen_serde.mutate_string(m, rr) if rr.chance(1, 4) else gen_serde.mutate(m, rr)
             inputs.append((k, m.hex()))
+    # every length field at its largest value, and one step around it
+    for k, b in gen_serde.boundary_encodings():
+        inputs.append((k, b.hex()))
     kinds = ["prog", "mod", "lib", "si", "so", "kern", "pinfo"]
     for i in range(nrand):
         rr = r.fork("r%d" % i)
